@@ -114,6 +114,21 @@ pub open spec fn wake_conserves(o: Server, f: Server, w: WakeupRequest, left: bo
             && (o.connections.map@[w.conn_id].state is Blocked) && f.connections.map@[w.conn_id].state == ConnectionState::Authenticated))
 }
 
+pub open spec fn pop_first_nonempty(o: Server, f: Server, keys: Seq<Vec<u8>>, db: usize, r: Result<RespFrame>, left: bool) -> bool {
+    r is Ok ==> (
+        if r->Ok_0 is NoResponse {
+            // nothing to serve: every key's list is empty and nothing was popped
+            (forall|j: int| 0 <= j < keys.len() ==> list_of(o.storage, db, (#[trigger] keys[j])@).len() == 0)
+            && (forall|d: usize, k: Seq<u8>| #[trigger] list_of(f.storage, d, k) == list_of(o.storage, d, k))
+        } else {
+            exists|i: int| 0 <= i < keys.len()
+                && (forall|j: int| 0 <= j < i ==> list_of(o.storage, db, (#[trigger] keys[j])@).len() == 0)
+                && list_of(o.storage, db, keys[i]@).len() > 0
+                && served_reply(r->Ok_0, keys[i]@, if left { list_of(o.storage, db, keys[i]@)[0] } else { list_of(o.storage, db, keys[i]@).last() })
+                && list_of(f.storage, db, keys[i]@) =~= (if left { list_of(o.storage, db, keys[i]@).drop_first() } else { list_of(o.storage, db, keys[i]@).drop_last() })
+                && others_same(o.storage, f.storage, db, keys[i]@)
+        })
+}
 /// the closure run on the client's connection entry: a client still blocked gets exactly the reply [key, element] and leaves
 /// the blocked state; anything else leaves the entry as it was
 pub open spec fn wake_closure(o: Connection, f: Connection, key: Seq<u8>, x: Seq<u8>, delivered: bool) -> bool {
@@ -161,6 +176,41 @@ impl Server {
             !final(self).connections.map@.contains_key(id),
             old(self).connections.map@.contains_key(id) ==> forall|d: usize| d < spec_db_count() ==> !final(self).blocking_manager.registered@.contains((d, id)),
             forall|d: usize, c: u64| c != id ==> (final(self).blocking_manager.registered@.contains((d, c)) <==> old(self).blocking_manager.registered@.contains((d, c))),
+//@@ body
+//@@ end
+
+// BLPOP / BRPOP served at once: the keys are tried in argument order; the first one that holds an element gives it up (one
+// element, from the left for BLPOP, from the right for BRPOP) and the reply is [that key, that element]; the keys before it
+// were empty and nothing else changes. If no key holds an element nothing is popped (the caller then blocks).
+//@@ unit blpop_fast_path stmts src/network/server.rs Server::handle_blpop "for key in &keys" upto "let deadline"
+//@@   opt same-return-type
+//@@   tail Ok(RespFrame::NoResponse)
+//@@   rewrite R3
+//@@   rewrite RFOR 0 it
+//@@   loop 0
+//@@|     invariant
+//@@|         it.seq().len() == keys@.len(), forall|j: int| 0 <= j < keys@.len() ==> *(#[trigger] it.seq()[j]) == keys@[j],
+//@@|         it.history@ =~= it.seq().take(it.index@),
+//@@|         forall|d: usize, k: Seq<u8>| #[trigger] list_of(self.storage, d, k) == list_of(old(self).storage, d, k),
+//@@|         forall|j: int| 0 <= j < it.index@ ==> list_of(old(self).storage, db_index, (#[trigger] keys@[j])@).len() == 0,
+    fn blpop_fast_path(&mut self, keys: Vec<Vec<u8>>, db_index: usize) -> (r: Result<RespFrame>)
+        ensures pop_first_nonempty(*old(self), *final(self), keys@, db_index, r, true),
+//@@ body
+//@@ end
+
+//@@ unit brpop_fast_path stmts src/network/server.rs Server::handle_brpop "for key in &keys" upto "let deadline"
+//@@   opt same-return-type
+//@@   tail Ok(RespFrame::NoResponse)
+//@@   rewrite R3
+//@@   rewrite RFOR 0 it
+//@@   loop 0
+//@@|     invariant
+//@@|         it.seq().len() == keys@.len(), forall|j: int| 0 <= j < keys@.len() ==> *(#[trigger] it.seq()[j]) == keys@[j],
+//@@|         it.history@ =~= it.seq().take(it.index@),
+//@@|         forall|d: usize, k: Seq<u8>| #[trigger] list_of(self.storage, d, k) == list_of(old(self).storage, d, k),
+//@@|         forall|j: int| 0 <= j < it.index@ ==> list_of(old(self).storage, db_index, (#[trigger] keys@[j])@).len() == 0,
+    fn brpop_fast_path(&mut self, keys: Vec<Vec<u8>>, db_index: usize) -> (r: Result<RespFrame>)
+        ensures pop_first_nonempty(*old(self), *final(self), keys@, db_index, r, false),
 //@@ body
 //@@ end
 
